@@ -109,6 +109,20 @@ let handle (toks : string list) : string =
                | Done (f3, cnt3) -> Buffer.add_string b "| "; dump f3 cnt3)
             end;
             Buffer.contents b))
+  | "teig" :: rest ->
+      let r = { rest } in
+      let n = rint r in let d = rvec r n in let sd = rvec r (n - 1) in
+      let eps = ofl !consts.(0) in let near0 = ofl !consts.(1) in let mn = ofl !consts.(5) in
+      let pinv = ofl (1.0 /. !consts.(0)) in
+      (match te_compute opsFloat near0 mn pinv (nat_of_int_e n) d sd with
+       | None -> "throw"
+       | Some (ev, q) -> let b = Buffer.create 2048 in pv b ev; pm b q; Buffer.contents b)
+  | "m_heig" :: rest ->
+      let r = { rest } in
+      let n = rint r in let scale = rfl r in let t = rmat r n n in
+      let b = Buffer.create 1024 in
+      List.iter (fun (re, im) -> pv b [re; im]) (he_eigenvalues opsFloat (nat_of_int_e n) t scale);
+      Buffer.contents b
   | "bk" :: n :: shift :: ul :: _rm :: rest ->
       let r = { rest } in
       let n = int_of_string n in let shift = ofl (fof shift) in
